@@ -1,23 +1,25 @@
-SPECIFICATION Spec
+\* witness wanted (coarse schedule, replayable): InSetConnected fails for the code as it is
+SPECIFICATION SpecB
 CONSTANTS
   Peers = {"p1", "p2"}
   Self = "self"
   Limit = 1
   Workers = {"w1"}
   Callers = {}
-  Delay = 2
-  MaxRounds = 3
+  Delay = 1
+  MaxRounds = 1
   MaxDrops = 1
-  MaxInbound = 1
-  MaxFail = 1
+  MaxInbound = 0
+  MaxFail = 0
   MaxCalls = 0
   MaxApi = 0
-  WithGC = TRUE
+  WithGC = FALSE
   AtomicPeers = FALSE
   SignedWant = FALSE
   Serialized = FALSE
   DirectAPI = FALSE
-VIEW state
+  MaxLen = 200
 CHECK_DEADLOCK FALSE
+VIEW state
+ACTION_CONSTRAINT CoarseSchedule
 INVARIANTS InSetConnected
-
